@@ -61,17 +61,36 @@ def trusted_scan(gen_path, meta):
         if origin is not None:
             problems.append(f"trusted construct inside extracted repository text at gen line {i}: {lines[i-1].strip()}")
             continue
-        # name of the trusted thing: look ahead for `fn NAME` / `[ PATH ]` / `struct NAME` / `type NAME`
-        ctx = " ".join(lines[i - 1:i + 3])
-        nm = re.search(r"assume_specification(?:<[^\[]*>)?\s*\[\s*([^\]]+?)\s*\]", ctx)
-        if nm:
-            name = "assume_specification " + "".join(nm.group(1).split())
-        else:
-            nm = re.search(r"\b(?:fn|struct|type|trait)\s+(\w+)", ctx)
-            name = ("external_body " + nm.group(1)) if nm else ("unnamed@" + lines[i - 1].strip())
+        # name of the trusted thing: the next `fn`/`struct`/`type` declared at or after the marker,
+        # qualified by the enclosing top-level `impl` type if any
+        def enclosing_impl(idx):
+            for j in range(idx, -1, -1):
+                if re.match(r"impl\b", lines[j]):
+                    mm = re.match(r"impl(?:<[^>]*>)?\s+(?:[\w:<>, ']+\s+for\s+)?(\w+)", lines[j])
+                    return mm.group(1) if mm else None
+                if lines[j].startswith("}"):
+                    return None
+            return None
         if re.search(r"\bassume\s*\(|\badmit\s*\(", ml):
-            problems.append(f"assume/admit at gen line {i}: {lines[i-1].strip()}")
-            continue
+            fnn = None
+            for j in range(i - 1, -1, -1):
+                mm = re.search(r"\bfn\s+(\w+)", m_lines[j])
+                if mm:
+                    fnn = mm.group(1)
+                    break
+            name = f"admit-in {fnn}"
+        else:
+            ctx = " ".join(lines[i - 1:i + 4])
+            nm = re.search(r"assume_specification(?:<[^\[]*>)?\s*\[\s*([^\]]+?)\s*\]", ctx)
+            if nm:
+                name = "assume_specification " + "".join(nm.group(1).split())
+            else:
+                nm = re.search(r"\b(fn|struct|type|trait)\s+(\w+)", ctx)
+                if nm and nm.group(1) == "fn":
+                    enc = enclosing_impl(i - 1)
+                    name = "external_body " + (enc + "::" if enc else "") + nm.group(2)
+                else:
+                    name = ("external_body " + nm.group(2)) if nm else ("unnamed@" + lines[i - 1].strip())
         if name not in allowed:
             problems.append(f"trusted item not on prelude/TRUSTED.json: {name} (gen line {i})")
         else:
@@ -371,6 +390,8 @@ def run_unit(unit, tier="quick", seeds=None):
 
 if __name__ == "__main__":
     r = run_unit(sys.argv[1], sys.argv[2] if len(sys.argv) > 2 else "quick")
-    r2 = dict(r)
-    print(json.dumps(r2, indent=1)[:6000])
+    r2 = {k: r[k] for k in ("unit", "status", "reason", "failures", "obligations", "discharged", "canaries", "trusted") if k in r}
+    for f in r2["failures"]:
+        f.pop("rendered", None)
+    print(json.dumps(r2, indent=1))
     sys.exit({"ok": 0, "fail": 1, "undecided": 2}[r["status"]])
